@@ -11,6 +11,7 @@ class BufGen(ProgGen):
     def __init__(self, rng, runner, fam, p_ctx=0.2, p_cap=0.35, joint=False, p_fail=0.0, **kw):
         super().__init__(rng, runner, fam, **kw)
         self.p_fail = p_fail        # probability of switching write failures (OSError) on/off
+        self.p_drop = 0.5                     # probability of dropping unused objects before the closing exits
         self.failing = []
         self.p_ctx = p_ctx
         self.p_cap = p_cap
@@ -104,6 +105,19 @@ class BufGen(ProgGen):
         if self.failing and self.rng.random() < 0.5:
             self.failing = []
             ops.append(("fail", []))
+        if self.stack and self.rng.random() < self.p_drop:
+            # before the remaining contexts are left, the program lets go of objects it no longer
+            # uses (not of those whose own `buffered` context is still to be left)
+            busy = set()
+            for top in self.stack:
+                if top[0] == "o":
+                    busy.add(top[1])
+                elif top[0] == "f":
+                    busy.update(top[2])
+            free = [i for i in range(len(self.r.root_objs())) if i not in busy]
+            self.rng.shuffle(free)
+            for k in free[:self.rng.randint(1, max(1, len(free)))]:
+                ops.append(("drop", k, list(self.failing)))
         while self.stack:
             top = self.stack.pop()
             if top[0] == "c":
